@@ -399,6 +399,10 @@ func c09Line(work, line string, yml bool, tag string, lineNo int, r *rng, every,
 			if float64(wurz) >= math.Min(wurm, float64(pre.N)) {
 				kinds = append(kinds, "root-limit")
 			}
+			if wurm > float64(pre.N) && wurz >= pre.N {
+				// the scaled soil limit lies below the profile: only the clamp to N holds the roots inside it
+				kinds = append(kinds, "root-clamp-N")
+			}
 			for i := 0; i < cnt; i++ {
 				if g.PE[i] == 0 && grown {
 					kinds = append(kinds, "pe-zero")
@@ -457,7 +461,17 @@ func c09Line(work, line string, yml bool, tag string, lineNo int, r *rng, every,
 			})
 		}
 	}
-	res := runProject(work, splitArgs(line))
+	var res runResult
+	func() {
+		// a panic inside the day loop (e.g. an index past the layer arrays) is a failing input, not a harness crash
+		defer func() {
+			if e := recover(); e != nil {
+				res = runResult{Success: false, Err: fmt.Sprintf("panic: %v", e)}
+				oracleFail("crop-state:run-panicked crop=%s tag=%s line=%d zeit=%d date=- %v", tr.crop, tag, lineNo, 0, e)
+			}
+		}()
+		res = runProject(work, splitArgs(line))
+	}()
 	hermes.VerifProbe = nil
 	emit(jobj{"k": "run", "line": lineNo, "tag": tag, "success": res.Success, "err": res.Err, "days": days, "cropdays": cropDays,
 		"tied": tied, "emitted": emitted, "shadow_days": shadowDays, "shadow_lost": shadowLost, "kinds": interesting})
